@@ -303,7 +303,8 @@ class ExprMixin:
             return z3.Select(self.heap.get('$set', r), self.sv(item, n).t)
         if k == 'pset':
             if not isinstance(item, PathV):
-                self.unsupported(n, 'non-path in path set')
+                # a set created by set() stores non-path members in its value-set component
+                return z3.Select(self.heap.get('$set', r), self.sv(item, n).t)
             return z3.Select(self.heap.get('$pset', r), item.s)
         self.unsupported(n, f'membership test on {k}')
 
